@@ -15,7 +15,7 @@ from typing import List
 from ..callgraph import get_callgraph
 from ..emit import EmitSite, enumerate_sites
 from ..facts import OpsetFacts
-from ..index import AnalysisError, Index
+from ..index import AnalysisError, Index, call_name
 from ..report import Results
 from ..tables.onnx_ops import get_history
 
@@ -124,6 +124,7 @@ def run(res: Results, idx: Index, tier: str) -> None:
     ctrl_missing = [v for v in claim if not hist.available("Swish", v)]
     res.control("R-C11a", "unguarded builder.Swish is unavailable somewhere in the claimed range", bool(ctrl_missing))
     _control_guard_engine(res, facts)
+    rule_e(res, idx, cg, tier)
 
 
 def _control_guard_engine(res: Results, facts: OpsetFacts) -> None:
@@ -262,3 +263,34 @@ def rule_d(res: Results, idx: Index, sites, facts: OpsetFacts, hist) -> None:
                               f"{sorted(A - t)} inputs reach {s.op} below opset {V}", fi.qualname)
             else:
                 res.ok("R-C11d", site, key, f"opset-{V} gate covers every type {s.op} gained there: {sorted(A)}", fi.qualname)
+
+
+# ---------------------------------------------------------------------------------------------- R-C11e
+def rule_e(res: Results, idx: Index, cg, tier: str) -> None:
+    """Optimizer passes that only run from some opset on (they test `_graph_default_opset`) make the exported
+    function depend on the requested opset unless the rewrite is semantics-preserving.  The precondition / observation
+    / identity-predicate instances C02 decides for those passes (and for the helpers they reach) are re-decided here."""
+    from ..optflow import registered_passes
+    from . import c02
+    res.rule("R-C11e", "opset-gated optimizer rewrites are semantics-preserving (instances of C02 for passes that test the graph's opset)", floor=3)
+    m = idx.module(c02.OPT)
+    gated = []
+    for name, fi in [(p[0], p[1]) for p in registered_passes(idx, m)]:
+        if any(isinstance(c, ast.Call) and (call_name(c) or "").split(".")[-1] in ("_graph_default_opset", "_builder_opset") for c in ast.walk(fi.node)):
+            gated.append(fi)
+    if not gated:
+        raise AnalysisError("no opset-gated optimizer pass found (the Swish rewrite tests _graph_default_opset on the pinned tree)")
+    names = set()
+    for fi in gated:
+        for g in cg.reachable_from(fi, depth=3):
+            names.add(g.qualname)
+    sub = Results("C02", tier)
+    setattr(sub, "_nested_xref", True)
+    c02.run(sub, idx, tier)
+    n = 0
+    for inst in sub.instances:
+        if inst.func in names or any(f"::{nm}::" in inst.key for nm in names):
+            n += 1
+            res.add("R-C11e", inst.status, inst.site, f"{inst.rule}::{inst.key}", f"[C02 {inst.rule}] {inst.detail}", inst.func)
+    res.analysed["opset_gated_passes"] = [g.qualname for g in gated]
+    res.analysed["c02_instances_for_gated_passes"] = n
